@@ -49,6 +49,14 @@ DRIVER PROTOCOL (command `r5`, stateful; one output line per input line; it mirr
                                        field of the key's slot is overwritten (the harness edits
                                        the table file of a closed database), to reach the
                                        saturation range of the 32-bit counter           -> ok
+  r5 total                             TOTALITY of the model's physical run since `init`: every
+                                       `rStep` (kind plain: `Refine.pStep`) returned `.ok`
+                                       -> ok | err:model-panic | err:model-diverge |
+                                          err:model-<WrErr> (explicit, never reset; the harness
+                                          emits it at the end of every case with observed `ok`,
+                                          so a reachable error outcome of `PRes` - excluded for
+                                          legal inputs by `R3_total` / `R5_total` - is a
+                                          disagreement of the correspondence)
   r5 stat    -> bits=<b> older=<n> prog=<p> cur=<entries in current> old=<e1,e2,..|->
   r5 slots   -> tiers=<tier:filled:lastRemoved:freeLen,..|->  (every table ever written to)
   anything malformed -> bad-op
@@ -264,6 +272,10 @@ def step (d : DState) (ws : List String) : DState × String :=
         ({ d with col := d.col.setVT (Address.size_tier a) (t.setSlot (Address.offset a) b') }, "ok")
       | none => (d, "err:absent")
     | _, _ => (d, "bad-op")
+  | ["total"] =>
+    match d.failed with
+    | some f => (d, s!"err:model-{f}")
+    | none => (d, "ok")
   | ["stat"] => (d, stat d.col.ix)
   | ["slots"] => (d, slotLine d.col)
   | _ => (d, "bad-op")
